@@ -543,8 +543,25 @@ func c15Storm(h *ConsistentHash, nReaders, gets int, keys []any, prog [][]string
 	return strings.Join(out, ","), ok
 }
 
-func c15Start(cfg verifh.Cfg) (func(op []string) string, func()) {
+// c15Guard runs f as a subtest when t is given: with -race a data race detected while f runs fails the
+// subtest ("race detected during execution of test"), and the observation gets the token DATARACE.
+func c15Guard(t *testing.T, name string, f func()) (raced bool) {
+	if t == nil {
+		f()
+		return false
+	}
+	return !t.Run(name, func(*testing.T) { f() })
+}
+
+func c15Start(t *testing.T) func(cfg verifh.Cfg) (func(op []string) string, func()) {
+	return func(cfg verifh.Cfg) (func(op []string) string, func()) { return c15StartCfg(t, cfg) }
+}
+
+func c15StartCfg(t *testing.T, cfg verifh.Cfg) (func(op []string) string, func()) {
 	h := c15New(cfg)
+	// sequential twin: receives the same operations, is never touched by two goroutines; it provides the
+	// implementation's OWN sequential answers that concurrent observations are compared with
+	h2 := c15New(cfg)
 	var probes []any
 	if p := cfg.Str("probes", ""); p != "" {
 		for _, tok := range strings.Split(p, ",") {
@@ -595,31 +612,66 @@ func c15Start(cfg verifh.Cfg) (func(op []string) string, func()) {
 					prog = append(prog, strings.Split(o, "_"))
 				}
 			}
-			tuples, ok := c15Storm(h, verifh.Atoi(op[1]), verifh.Atoi(op[2]), keys, prog, func(o []string) bool {
-				if len(o) < 2 || !c15Apply(h, o) {
-					return false
+			// the implementation's sequential answers: after j operations (S<j>) and, for an adding operation j,
+			// between its Remove and its insertion (M<j>)
+			answers := func() string {
+				a := make([]string, len(keys))
+				for i, k := range keys {
+					a[i] = c15Get(h2, k)
 				}
-				track(o)
-				return true
+				return strings.Join(a, ";")
+			}
+			var ref []string
+			for j, o := range prog {
+				ref = append(ref, fmt.Sprintf("S%d/%s", j, answers()))
+				if len(o) >= 2 && o[0] != "remove" {
+					h2.Remove(c15Value(o[1]))
+					ref = append(ref, fmt.Sprintf("M%d/%s", j, answers()))
+				}
+				if len(o) < 2 || !c15Apply(h2, o) {
+					return "bad-op"
+				}
+			}
+			ref = append(ref, fmt.Sprintf("S%d/%s", len(prog), answers()))
+			var tuples string
+			ok := true
+			raced := c15Guard(t, "storm", func() {
+				tuples, ok = c15Storm(h, verifh.Atoi(op[1]), verifh.Atoi(op[2]), keys, prog, func(o []string) bool {
+					if len(o) < 2 || !c15Apply(h, o) {
+						return false
+					}
+					track(o)
+					return true
+				})
 			})
 			if !ok {
 				return "bad-op"
 			}
-			return final() + " r=" + tuples
+			out := final() + " r=" + tuples + " q=" + strings.Join(ref, ",")
+			if raced {
+				out += " DATARACE"
+			}
+			return out
 		}
 		if len(op) >= 2 && (op[0] == "gadd" || op[0] == "gaddr" || op[0] == "gaddw") {
 			plain := append([]string{op[0][1:]}, op[1:]...)
 			if k := op[1][0]; k != 't' && k != 'p' {
 				return "bad-op"
 			}
-			snaps, ok := c15Gated(h, plain, probes)
-			if !ok {
+			var snaps []string
+			ok := true
+			raced := c15Guard(t, "gated", func() { snaps, ok = c15Gated(h, plain, probes) })
+			if !ok || !c15Apply(h2, plain) {
 				return "bad-op"
 			}
 			track(plain)
-			return fmt.Sprintf("sig=%d | %s | %s", len(snaps), strings.Join(snaps, " | "), final())
+			out := fmt.Sprintf("sig=%d | %s | %s", len(snaps), strings.Join(snaps, " | "), final())
+			if raced {
+				out += " DATARACE"
+			}
+			return out
 		}
-		if len(op) < 2 || !c15Apply(h, op) {
+		if len(op) < 2 || !c15Apply(h, op) || !c15Apply(h2, op) {
 			return "bad-op"
 		}
 		track(op)
@@ -629,10 +681,10 @@ func c15Start(cfg verifh.Cfg) (func(op []string) string, func()) {
 }
 
 func TestVerifC15(t *testing.T) {
-	verifh.Run(t, verifh.Sections(c15Gen), c15Start)
+	verifh.Run(t, verifh.Sections(c15Gen), c15Start(nil))
 }
 
 // TestVerifC15Race is built with -race: storms of concurrent readers and gated operations.
 func TestVerifC15Race(t *testing.T) {
-	verifh.Run(t, verifh.Sections(c15GenRace), c15Start)
+	verifh.Run(t, verifh.Sections(c15GenRace), c15Start(t))
 }
